@@ -37,6 +37,19 @@ pub fn collect_one_box(rooted: bool, gc_before: u8) -> (bool, bool, bool, bool) 
   (exact, threshold, kept_ok, intact)
 }
 
+/// O-20.4 an object promoted by an earlier collection is still counted by the next FULL sweep that keeps it
+pub fn collect_promoted_then_full() -> bool {
+  let mut gc = ManuallyDrop::new(Allocator::default());
+  let a = gc.manage_obj(LyBox::new(Value::from(1.0)), &NO_GC);
+  let roots = Roots::<1> { boxes: [Some(a)], strs: [None] };
+  gc.collect_garbage(&roots);              // nursery sweep: `a` is promoted
+  let mid = gc.verif_stats();
+  gc.verif_set_gc_count(9);
+  gc.collect_garbage(&roots);              // full sweep: `a` is retained in the old heap
+  let st = gc.verif_stats();
+  mid.obj_len == 1 && st.obj_len == 1 && st.bytes_allocated == st.owned_bytes && st.owned_bytes > 0 && st.next_gc == 2 * st.bytes_allocated
+}
+
 /// O-05.4 marks are cleared by a sweep: an object kept by one collection is freed by the next full one when unrooted
 pub fn collect_twice(gc_before: u8) -> bool {
   let mut gc = ManuallyDrop::new(Allocator::default());
@@ -97,6 +110,12 @@ mod proofs {
     assert!(kept);
     assert!(intact);
   }
+
+  #[kani::proof]
+  #[kani::unwind(4)]
+  #[kani::stub(<ObjectHandle as std::ops::Drop>::drop, drop_stub)]
+  #[kani::stub(<laythe_core::ObjectRef as Trace>::trace, no_children)]
+  fn o20_4p_promoted_then_full_exact() { assert!(collect_promoted_then_full()); }
 
   #[kani::proof]
   #[kani::unwind(4)]
